@@ -144,6 +144,28 @@ impl Tape {
         }
     }
 
+    /// A draw whose exploration-mode value is chosen by the caller (`preset % n`) instead of
+    /// the PRNG; recorded on the tape like any other draw, so a replay reads it back.
+    pub fn draw_preset(&mut self, n: u64, preset: u64) -> u64 {
+        let v = match &mut self.mode {
+            Mode::Explore(_) => {
+                self.pos += 1;
+                if n <= 1 {
+                    0
+                } else {
+                    preset % n
+                }
+            }
+            Mode::Replay => self.draw_inner(n),
+        };
+        self.used.push(v);
+        if let Some(f) = &mut self.sink {
+            use std::io::Write;
+            let _ = writeln!(f, "{v}");
+        }
+        v
+    }
+
     /// A value in `lo..=hi`.
     pub fn range(&mut self, lo: u64, hi: u64) -> u64 {
         debug_assert!(hi >= lo);
